@@ -2,6 +2,7 @@ mod checks;
 mod compile;
 mod dap;
 mod dap13;
+mod dap15;
 mod layer_a;
 mod layer_b;
 mod mtprog;
